@@ -481,6 +481,83 @@ Definition gvar_subset (lens : list Z) (retain notdef : bool) (kept : list Z) : 
   ((if long then 1 else 0),
    0 :: map (fun i => gv_stored long (gv_end_offset long lens retain notdef kept i)) (zrange n)).
 
+(* ---- loca offsets (klippa/src/glyf_loca.rs Glyf::subset, padded_size, write_glyf_loca; head.indexToLocFormat) ---- *)
+Definition loca_pad (l : Z) : Z := l + l mod 2.                         (* padded_size *)
+
+(* one entry per element of plan.new_to_old_gid_list: (new gid, byte length of subset_glyph's output).
+   glens = per OLD glyph of the original (length with instructions kept, length under NO_HINTING) of what
+   subset_simple_glyph / subset_composite_glyph return when they do not bail out; the emptied .notdef, empty
+   glyphs, zero-contour headers and composites with an unmapped component are written with length 0 *)
+Definition loca_entries (F : afont) (glens : list (Z * Z)) (retain notdef nohint : bool) (kept : list Z)
+  : list (Z * Z) :=
+  map (fun old =>
+         let new := match glyph_map retain kept old with Some g => g | None => 0 end in
+         (new,
+          if (old =? 0) && (new =? 0) && negb notdef then 0
+          else match subset_glyph retain kept (glyph_at F old) with
+               | GE | GS0 | GB => 0
+               | _ => match znth glens old with
+                      | Some p => if nohint then snd p else fst p
+                      | None => 0
+                      end
+               end)) kept.
+
+(* max_offset += padded_size(trimmed_len) as u32 *)
+Definition loca_total (ents : list (Z * Z)) : Z := fold_left (fun a p => a + loca_pad (snd p)) ents 0.
+(* let loca_format: u8 = if max_offset < 0x1FFFF { 0 } else { 1 } *)
+Definition loca_format (ents : list (Z * Z)) : Z := if loca_total ents <? 131071 then 0 else 1.
+
+Definition loca_value (short : bool) (off : Z) : Z := if short then off / 2 else off.      (* offset >> 1 / offset *)
+Definition loca_wrap (short : bool) (p : Z) : Z := if short then p mod 65536 else p mod 4294967296.  (* as u16 / as u32 *)
+Definition loca_limit (short : bool) : Z := if short then 65535 else 4294967295.
+
+(* the two loops of write_glyf_loca (they differ in the integer width only).  [value] of the Rust code is always
+   loca_value offset, so it is not a separate state component.  None = `offset += ..` overflows (overflow-checks).
+   Result: the entries pushed after the leading 0, up to num_output_glyphs. *)
+Fixpoint loca_loop (short : bool) (nout : Z) (ents : list (Z * Z)) (last offset : Z) : option (list Z) :=
+  match ents with
+  | [] => Some (repeat (loca_value short offset) (Z.to_nat (nout - last)))     (* while last < num_output_glyphs *)
+  | (gid, len) :: r =>
+      let fill := Z.max 0 (gid - last) in                                      (* while last < gid *)
+      let off' := offset + loca_wrap short (loca_pad len) in
+      if loca_limit short <? off' then None
+      else match loca_loop short nout r (last + fill + 1) off' with
+           | None => None
+           | Some t => Some (repeat (loca_value short offset) (Z.to_nat fill) ++ loca_value short off' :: t)
+           end
+  end.
+
+Inductive loca_out := LPanic | LTable (fmt : Z) (offs : list Z).
+
+Definition loca_subset (nout : Z) (ents : list (Z * Z)) : loca_out :=
+  if 4294967295 <? loca_total ents then LPanic            (* max_offset (u32) overflows *)
+  else
+    let fmt := loca_format ents in
+    match loca_loop (fmt =? 0) nout ents 0 0 with
+    | None => LPanic
+    | Some t => LTable fmt (0 :: t)
+    end.
+
+(* where write_glyf_loca embeds each glyph's bytes in glyf: the short branch appends one zero byte after an
+   odd-length glyph, the long branch does not (finding C17:glyf-long-loca-unpadded-glyph-data) *)
+Definition glyf_data_len (short : bool) (len : Z) : Z := if short then loca_pad len else len.
+Fixpoint glyf_starts (short : bool) (ents : list (Z * Z)) (pos : Z) : list (Z * (Z * Z)) :=
+  match ents with
+  | [] => []
+  | (gid, len) :: r => (gid, (pos, len)) :: glyf_starts short r (pos + glyf_data_len short len)
+  end.
+(* read-fonts Loca::get_raw *)
+Definition loca_read (fmt : Z) (offs : list Z) (i : Z) : option Z :=
+  match znth offs i with Some v => Some (if fmt =? 0 then 2 * v else v) | None => None end.
+
+Definition flag_nohint (flags : Z) : bool := Z.testbit flags 0.
+
+Definition loca_model (F : afont) (glens : list (Z * Z)) (gids unis : list Z) (flags : Z) : loca_out :=
+  let kept := kept_glyphs F gids unis in
+  let retain := flag_retain flags in
+  loca_subset (num_output retain kept)
+              (loca_entries F glens retain (flag_notdef flags) (flag_nohint flags) kept).
+
 (* ---- correspondence case format (written by harness/src/bin/c17.rs) ---- *)
 Inductive observed :=
 | OPanic | OErr | OUnreadable
@@ -488,8 +565,15 @@ Inductive observed :=
        (cmap : list (Z * Z)) (cmap4_multi : bool)
        (cmap4 : option (list (Z * Z)))
        (mvars : list (mvar * list (option (Z * Z * list Z))))
-       (gvar : option (list Z * (Z * list Z))).
-(* gvar  = per-glyph data lengths of the original's gvar, and the subset's gvar flags word and offsets
+       (gvar : option (list Z * (Z * list Z)))
+       (loca : option (list (Z * Z) * (Z * list Z)))
+| OLocaOnly (glens : list (Z * Z)) (res : option (Z * list Z)).
+(* loca  = per-glyph subset_glyph output lengths of the ORIGINAL (computed by the harness from the original's
+           bytes, independently of klippa) and the subset's head.indexToLocFormat + loca entries as stored;
+   OLocaOnly = the cases in which a known loca-writer defect fired (u16 offset overflow panic = None, or the
+           long format, whose glyph data is garbage for every other observation): only the loca prediction
+           is compared;
+   gvar  = per-glyph data lengths of the original's gvar, and the subset's gvar flags word and offsets
            array as stored;
    mvars = for HVAR / VVAR present in both fonts: the original's index maps and what the subset's index maps
            say as raw bytes (entry format byte, mapCount, entry values);
@@ -524,7 +608,13 @@ Definition check_case (c : afont * (list Z * list Z * Z) * observed) : bool :=
   let '(F, (gids, unis, flags), obs) := c in
   match subset_model F gids unis flags, obs with
   | Panic, OPanic => true
-  | Out n gl hm cm, OOut n' gl' hm' cm' multi cm4 mvs gv =>
+  | _, OLocaOnly glens res =>
+      (match loca_model F glens gids unis flags, res with
+       | LPanic, None => true
+       | LTable fmt offs, Some (fl, offs') => (fmt =? fl) && list_eqb Z.eqb offs offs'
+       | _, _ => false
+       end)
+  | Out n gl hm cm, OOut n' gl' hm' cm' multi cm4 mvs gv lc =>
       (n =? n') && opt_eqb (list_eqb glyph_eqb) gl gl'
       && opt_eqb (fun a b => (fst a =? fst b) && list_eqb pair_eqb (snd a) (snd b)) hm hm'
       && (if multi then list_eqb Z.eqb (map fst cm) (map fst cm')   (* byte encoder defect: chars only *)
@@ -546,6 +636,14 @@ Definition check_case (c : afont * (list Z * list Z * Z) * observed) : bool :=
           | Some (lens, (fl, offs)) =>
               let pred := gvar_subset lens (flag_retain flags) (flag_notdef flags) (kept_glyphs F gids unis) in
               (fst pred =? fl) && list_eqb Z.eqb (snd pred) offs
+          end)
+      && (match lc with
+          | None => true
+          | Some (glens, (fl, offs')) =>
+              match loca_model F glens gids unis flags with
+              | LTable fmt offs => (fmt =? fl) && list_eqb Z.eqb offs offs'
+              | LPanic => false
+              end
           end)
   | _, _ => false
   end.
